@@ -68,6 +68,15 @@ fn hexfield<T: TryFrom<u64>>(s: &str, max_digits: usize) -> Option<T> {
     let v = u64::from_str_radix(if t.is_empty() { "0" } else { t }, 16).ok()?;
     T::try_from(v).ok()
 }
+/// Lines whose effect the statement leaves open: a numeric field written with an explicit plus sign (`u8:ffd001:+6`).
+/// Rust's integer parser accepts the sign, the statement says neither that such a field is well formed nor that it
+/// is malformed - the harness does not send such lines (found by the libFuzzer target; the first version of the
+/// model called them malformed and raised a false alarm).
+pub fn unspecified_line(line: &str) -> bool {
+    let f: Vec<&str> = line.split(':').collect();
+    matches!(f[0], "u8" | "ioport") && f.len() == 3 && f[1..].iter().any(|x| x.starts_with('+'))
+}
+
 impl Model {
     pub fn new() -> Model {
         Model { cells: BTreeMap::new(), latch: [0; 11], ddr: [0; 11], pins: [0; 11], stopped: false, outputs: vec![], effective: 0 }
@@ -382,6 +391,8 @@ fn run_channel(lines: &[String], sched: Schedule, seed: u32) -> Result<RunOut, S
 }
 
 fn judge_lines(lines: &[String], sched: Schedule, seed: u32) -> Result<Model, String> {
+    let kept: Vec<String> = lines.iter().filter(|l| !unspecified_line(l)).cloned().collect();
+    let lines: &[String] = &kept;
     let mut m = Model::new();
     for l in lines {
         m.apply(l);
@@ -582,6 +593,8 @@ fn judge_framing(texts: &[Vec<u8>]) -> Result<usize, String> {
 
 /// incoming lines over real TCP, written in odd chunks: the receive worker must deliver them intact, in order
 fn judge_tcp_lines(lines: &[String], chunk_seed: u32) -> Result<(), String> {
+    let kept: Vec<String> = lines.iter().filter(|l| !unspecified_line(l)).cloned().collect();
+    let lines: &[String] = &kept;
     let mut m = Model::new();
     for l in lines {
         m.apply(l);
